@@ -12,6 +12,7 @@ sync_verif() {
     rsync -a --delete --exclude target --exclude .git --exclude replays --exclude evidence /verif/ $LAB/verif/
     mkdir -p $LAB/verif/evidence $LAB/verif/replays
     sed -i "s#path = \"/repo/lib/melvm\"#path = \"$LAB/repo/lib/melvm\"#; s#path = \"/repo/lib/tip911-stakeset\"#path = \"$LAB/repo/lib/tip911-stakeset\"#; s#path = \"/repo\"#path = \"$LAB/repo\"#" $LAB/verif/harness/Cargo.toml
+    sed -i "s#/repo/#$LAB/repo/#g" $LAB/verif/stfloom/Cargo.toml
 }
 runchecks() {
     for id in "$@"; do
